@@ -35,7 +35,8 @@ impl<'a, T: Copy> Iterator for Counting<'a, T> {
 const SLACK: usize = 16;
 
 /// No panic, bounded polling, Ok/Err as the reference says, under all four
-/// option records and through byte, str, char-iterator and DecodedChar entry points.
+/// option records and through byte, str, char-iterator and DecodedChar entry points (all 13 of them,
+/// `FromStr` included).
 pub fn property(input: &[u8]) -> Result<(usize, bool), String> {
 	let lossy: String = String::from_utf8_lossy(input).into_owned();
 	let chars: Vec<char> = lossy.chars().collect();
@@ -116,6 +117,36 @@ pub fn property(input: &[u8]) -> Result<(usize, bool), String> {
 		if res.is_ok() != r.accepted(l) {
 			return Err(format!("parse_infallible_with({l:?}) over DecodedChar: verdict differs from the reference"));
 		}
+	}
+	// the option-less entry points (strict): FromStr, parse_str, parse_slice, parse_utf8, parse_infallible_utf8,
+	// parse_infallible, parse, and parse_with over a fallible DecodedChar stream
+	let exp = r.accepted_strict();
+	if let Some(text) = valid {
+		if text.parse::<Value>().is_ok() != exp {
+			return Err("FromStr: verdict differs from the reference".into());
+		}
+		if Value::parse_str(text).is_ok() != exp {
+			return Err("parse_str: verdict differs from the reference".into());
+		}
+	}
+	if Value::parse_slice(input).is_ok() != (valid.is_some() && exp) {
+		return Err("parse_slice: verdict differs from the reference".into());
+	}
+	if Value::parse_utf8(stream.iter().copied()).is_ok() != (valid.is_some() && exp) {
+		return Err("parse_utf8: verdict differs from the reference".into());
+	}
+	if Value::parse_infallible_utf8(chars.iter().copied()).is_ok() != exp {
+		return Err("parse_infallible_utf8: verdict differs from the reference".into());
+	}
+	let dc: Vec<DecodedChar> = chars.iter().map(|c| DecodedChar::new(*c, 2 * c.len_utf16())).collect();
+	if Value::parse_infallible(dc.iter().copied()).is_ok() != exp {
+		return Err("parse_infallible: verdict differs from the reference".into());
+	}
+	if Value::parse(dc.iter().copied().map(Ok::<DecodedChar, ()>)).is_ok() != exp {
+		return Err("parse: verdict differs from the reference".into());
+	}
+	if Value::parse_with(dc.iter().copied().map(Ok::<DecodedChar, ()>), options(false, false)).is_ok() != exp {
+		return Err("parse_with: verdict differs from the reference".into());
 	}
 	let class = if valid.is_none() {
 		3
